@@ -1241,3 +1241,347 @@ Proof. vm_compute. split; reflexivity. Qed.
    repair 702 steps back out of the buffer *)
 Example search_index_702_needs_tag_before : search_index fixes_all [8; 1] 0 0 0 false 1 = SFound 0 (-1).
 Proof. vm_compute. reflexivity. Qed.
+
+(* ================================================================== (A3) the JSON text is linear in the input *)
+From DG Require Import Base64Proofs.
+
+Lemma fmt_nat_aux_len : forall fuel n acc, (length (fmt_nat_aux fuel n acc) <= fuel + length acc)%nat.
+Proof.
+  induction fuel as [|f IH]; intros n acc; cbn [fmt_nat_aux]; [lia|].
+  destruct (n <? 10); [cbn [length]; lia|]. specialize (IH (n / 10) ((48 + n mod 10) :: acc)). cbn [length] in IH. lia.
+Qed.
+
+Lemma fmt_nat_len64 n : 0 <= n <= 2 ^ 64 -> (length (fmt_nat n) <= 65)%nat.
+Proof.
+  intros Hn. unfold fmt_nat.
+  pose proof (fmt_nat_aux_len (S (Z.to_nat (Z.log2 n))) n []) as H. cbn [length] in H.
+  assert (Z.log2 n <= 64).
+  { destruct (Z.eq_dec n 0) as [->|]; [cbn; lia|].
+    replace 64 with (Z.log2 (2 ^ 64)) by (apply Z.log2_pow2; lia). apply Z.log2_le_mono. lia. }
+  pose proof (Z.log2_nonneg n). lia.
+Qed.
+
+Lemma fmt_int_len64 z : Z.abs z <= 2 ^ 64 -> (length (fmt_int z) <= 66)%nat.
+Proof.
+  intros Hz. unfold fmt_int. destruct (Z.ltb_spec z 0).
+  - pose proof (fmt_nat_len64 (- z) ltac:(lia)). cbn [length]. lia.
+  - pose proof (fmt_nat_len64 z ltac:(lia)). lia.
+Qed.
+
+Lemma esc_byte_le6 c : (length (esc_byte c) <= 6)%nat.
+Proof. unfold esc_byte. repeat match goal with |- context [if ?b then _ else _] => destruct b end; cbn [length]; lia. Qed.
+
+Lemma escape_le6' s : (length (escape s) <= 6 * length s)%nat.
+Proof.
+  unfold escape. induction s as [|c s IH]; [cbn; lia|]. cbn [flat_map length]. rewrite app_length.
+  pose proof (esc_byte_le6 c). lia.
+Qed.
+
+Lemma quote_ref_le' s : (length (quote_ref s) <= 6 * length s + 2)%nat.
+Proof. unfold quote_ref. cbn [length]. rewrite app_length. cbn [length]. pose proof (escape_le6' s). lia. Qed.
+
+Lemma b64_text_le b : (length (b64_encode b) <= 4 * length b + 4)%nat.
+Proof.
+  rewrite b64_encode_length. pose proof (Nat.div_le_upper_bound (length b + 2) 3 (length b + 1) ltac:(lia) ltac:(lia)). lia.
+Qed.
+
+Lemma go_value_range k u : 0 <= u < 2 ^ 64 -> Z.abs (go_value k u) <= 2 ^ 64.
+Proof.
+  intros Hu. unfold go_value. change (2 ^ 64) with 18446744073709551616 in *.
+  destruct (k =? K_BOOL). { destruct (u mod 256 =? 1); lia. }
+  unfold scalar_of_u, to_s, zigzag_dec.
+  change (2 ^ (32 - 1)) with 2147483648. change (2 ^ 32) with 4294967296.
+  change (2 ^ (64 - 1)) with 9223372036854775808. change (2 ^ 64) with 18446744073709551616.
+  repeat match goal with |- context [if ?b then _ else _] => destruct b end; try lia;
+    Z.div_mod_to_equations; lia.
+Qed.
+
+Lemma wdec_val_ok wt bs v r : bytes_ok bs -> wdec_val wt bs = Some (v, r) ->
+  bytes_ok r /\ 0 <= wval_u v < 2 ^ 64 /\ (forall b, v = WBytes b -> bytes_ok b).
+Proof.
+  intros Hb H. split.
+  { destruct (wdec_val_suffix _ _ _ _ H) as [n ->]. apply bytes_ok_skipn'. assumption. }
+  unfold wdec_val in H. unfold ProtoMsg.take in H.
+  destruct (wt =? 0).
+  { destruct (varint_dec bs) as [x n] eqn:E. destruct (n <? 0); [discriminate|]. inversion H; subst.
+    cbn [wval_u]. split; [eapply varint_dec_value; eassumption | intros; discriminate]. }
+  destruct (wt =? 1).
+  { destruct ((0 <=? 8) && (8 <=? plen bs)); [|discriminate]. injection H as Hv Hr'. subst v r. cbn [wval_u].
+    split; [|intros; discriminate].
+    pose proof (le_dec_range 8 (firstn (Z.to_nat 8) bs) (bytes_ok_firstn' _ _ Hb)) as Hr.
+    change (256 ^ Z.of_nat 8) with (2 ^ 64) in Hr. exact Hr. }
+  destruct (wt =? 5).
+  { destruct ((0 <=? 4) && (4 <=? plen bs)); [|discriminate]. injection H as Hv Hr'. subst v r. cbn [wval_u].
+    split; [|intros; discriminate].
+    pose proof (le_dec_range 4 (firstn (Z.to_nat 4) bs) (bytes_ok_firstn' _ _ Hb)) as Hr.
+    destruct Hr as [Hr0 Hr1]. split; [exact Hr0 | eapply Z.lt_trans; [exact Hr1 | reflexivity]]. }
+  destruct (wt =? 2); [|discriminate].
+  destruct (varint_dec bs) as [l n]. destruct (n <? 0); [discriminate|].
+  destruct ((0 <=? l) && (l <=? plen (skipn (Z.to_nat n) bs))); [|discriminate]. inversion H; subst.
+  cbn [wval_u]. split; [change (2 ^ 64) with 18446744073709551616; lia|].
+  intros b Hbq. inversion Hbq; subst. apply bytes_ok_firstn', bytes_ok_skipn'. assumption.
+Qed.
+
+Lemma consumed_of {A} (r bs : list A) : (length r < length bs)%nat ->
+  exists c, (length bs = c + length r /\ 1 <= c)%nat.
+Proof. intros H. exists (length bs - length r)%nat. lia. Qed.
+
+(* the largest quoted member key of a schema *)
+Definition keys_max (Sc : schema) : nat :=
+  fold_right (fun md m => Nat.max (fold_right (fun fd m' => Nat.max (length (quote_ref (fd_json fd))) m') 0%nat (md_fields md)) m)
+             0%nat Sc.
+
+Lemma keys_max_ge Sc md fd : In md Sc -> In fd (md_fields md) -> (length (quote_ref (fd_json fd)) <= keys_max Sc)%nat.
+Proof.
+  intros Hmd Hfd. unfold keys_max. induction Sc as [|m Sc IH]; [contradiction|]. cbn [fold_right].
+  destruct Hmd as [->|Hmd]; [|specialize (IH Hmd); lia].
+  assert (H : (length (quote_ref (fd_json fd)) <=
+               fold_right (fun fd m' => Nat.max (length (quote_ref (fd_json fd))) m') 0 (md_fields md))%nat).
+  { induction (md_fields md) as [|g fs IHf]; [contradiction|]. cbn [fold_right].
+    destruct Hfd as [->|Hfd]; [lia | specialize (IHf Hfd); lia]. }
+  lia.
+Qed.
+
+Section P2JOutput.
+  Variable fl : Z -> list Z.
+  Variable o : p2j_opts.
+  Variable F : nat.
+  Hypothesis HF : forall b, (length (fl b) <= F)%nat.        (* the float printer emits at most F characters *)
+  Variable Sc : schema.
+  Variable KEYS : nat.
+  Hypothesis HKEYS : forall md fd, In md Sc -> In fd (md_fields md) -> (length (quote_ref (fd_json fd)) <= KEYS)%nat.
+  (* characters per input byte *)
+  Variable K : nat.
+  Hypothesis K72 : (72 <= K)%nat.
+  Hypothesis KF : (F + 2 <= K)%nat.
+  Hypothesis KK : (KEYS + 2 <= K)%nat.
+
+  Lemma Kc c : (1 <= c -> K <= K * c)%nat.
+  Proof. intros. nia. Qed.
+  Lemma Kmono a b : (a <= b -> K * a <= K * b)%nat.
+  Proof. intros. nia. Qed.
+
+  Lemma value_text_len k v t : Z.abs v <= 2 ^ 64 -> value_text fl o k v = Some t -> (length t + 2 <= K)%nat.
+  Proof.
+    intros Hv. unfold value_text.
+    destruct (k =? K_BOOL). { intros HH; inversion HH; subst. destruct (v =? 0); cbn [length lit_false lit_true]; lia. }
+    destruct (k =? K_DOUBLE). { destruct (f64_is_finite v); [|discriminate]. intros HH; inversion HH; subst. pose proof (HF v). lia. }
+    destruct (k =? K_FLOAT). { destruct (f32_is_finite v); [|discriminate]. intros HH; inversion HH; subst.
+                               pose proof (HF (widen32 v)). lia. }
+    pose proof (fmt_int_len64 v Hv).
+    destruct ((k =? K_INT64) && o_int64_string o); intros HH; inversion HH; subst; cbn [length]; rewrite ?app_length; cbn [length]; lia.
+  Qed.
+
+  Lemma bytes_text_len k b : (length (bytes_text k b) <= 6 * length b + 6)%nat.
+  Proof.
+    unfold bytes_text. destruct (k =? K_STRING).
+    - pose proof (quote_ref_le' b). lia.
+    - cbn [length]. rewrite app_length. cbn [length]. pose proof (b64_text_le b). lia.
+  Qed.
+
+  Section Level.
+    Variable rec : list Z -> list Z -> option text.
+    Hypothesis Hrec : forall name body t, bytes_ok body -> rec name body = Some t -> (length t <= K * length body + 2)%nat.
+
+    (* a value: at least one byte consumed, its text (plus two characters of slack for quotes / brackets) paid by them *)
+    Lemma read_single_out t bs x r : bytes_ok bs -> read_single fl o rec t bs = Some (x, r) ->
+      exists c, (length bs = c + length r /\ 1 <= c /\ length x + 2 <= K * c)%nat /\ bytes_ok r.
+    Proof.
+      intros Hb H. destruct (consumed_of r bs (read_single_shrinks fl o rec t bs x r H)) as (c & Hc & Hc1).
+      exists c. pose proof (Kc c Hc1) as HK.
+      unfold read_single in H. destruct t as [k|name].
+      - destruct (is_byteskind k).
+        + destruct (wdec_val 2 bs) as [[w r1]|] eqn:E; [|discriminate]. destruct w as [| | |b]; try discriminate.
+          inversion H; subst. destruct (wdec_val_ok _ _ _ _ Hb E) as (Hr & _ & _).
+          pose proof (wdec_val_bytes_len _ _ _ _ E) as Hl. pose proof (bytes_text_len k b) as Ht.
+          pose proof (Kmono (length b + 1) c ltac:(lia)). split; [|assumption]. repeat split; try lia; try nia.
+        + destruct (is_numeric k); [|discriminate].
+          destruct (wdec_val (wt_of_kind k) bs) as [[w r1]|] eqn:E; [|discriminate].
+          destruct (value_text fl o k (go_value k (wval_u w))) as [tx|] eqn:Ev; [|discriminate].
+          inversion H; subst. destruct (wdec_val_ok _ _ _ _ Hb E) as (Hr & Hu & _).
+          pose proof (value_text_len _ _ _ (go_value_range k _ Hu) Ev). split; [|assumption]. lia.
+      - destruct (wdec_val 2 bs) as [[w r1]|] eqn:E; [|discriminate]. destruct w as [| | |body]; try discriminate.
+        destruct (rec name body) as [tx|] eqn:Er; [|discriminate]. inversion H; subst.
+        destruct (wdec_val_ok _ _ _ _ Hb E) as (Hr & _ & Hbody).
+        pose proof (Hrec _ _ _ (Hbody body eq_refl) Er) as Ht.
+        pose proof (wdec_val_bytes_len _ _ _ _ E) as Hl.
+        pose proof (Kmono (length body + 1) c ltac:(lia)). split; [|assumption]. repeat split; try lia; try nia.
+    Qed.
+
+    Lemma packed_loop_out : forall f t payload x, bytes_ok payload ->
+      packed_loop fl o rec f t payload = Some x -> (length x <= K * length payload)%nat.
+    Proof.
+      induction f as [|f IH]; intros t payload x Hb; destruct payload as [|c0 p]; cbn [packed_loop];
+        try discriminate; try (intros HH; inversion HH; subst; cbn [length]; lia).
+      destruct (read_single fl o rec t (c0 :: p)) as [[y r]|] eqn:E; [|discriminate].
+      destruct (read_single_out _ _ _ _ Hb E) as (c & (Hc & Hc1 & Hy) & Hr).
+      destruct r as [|c1 r].
+      - intros HH; inversion HH; subst. rewrite Hc. cbn [length]. nia.
+      - destruct (packed_loop fl o rec f t (c1 :: r)) as [more|] eqn:El; [|discriminate].
+        apply IH in El; [|assumption]. intros HH; inversion HH; subst.
+        rewrite app_length. cbn [length] in *. rewrite Hc. nia.
+    Qed.
+
+    Lemma unpacked_loop_out : forall f t n bs more rest, bytes_ok bs ->
+      unpacked_loop fl o rec f t n bs = Some (more, rest) ->
+      exists c, (length bs = c + length rest /\ length more <= K * c)%nat /\ bytes_ok rest.
+    Proof.
+      induction f as [|f IH]; intros t n bs more rest Hb; destruct bs as [|c0 bs]; cbn [unpacked_loop];
+        try discriminate; try (intros HH; inversion HH; subst; exists 0%nat; cbn [length]; split; [lia | constructor]).
+      destruct (rd_tag (c0 :: bs)) as [[[num wt] r]|] eqn:Et; [|discriminate].
+      destruct (consumed_of _ _ (rd_tag_shrinks _ _ _ _ Et)) as (ct & Hct & Hct1).
+      assert (Hr : bytes_ok r) by (destruct (rd_tag_suffix _ _ _ _ Et) as [m ->]; apply bytes_ok_skipn'; assumption).
+      destruct (negb (num =? n)). { intros HH; inversion HH; subst. exists 0%nat. cbn [length]. split; [lia | assumption]. }
+      destruct (read_single fl o rec t r) as [[x r']|] eqn:Es; [|discriminate].
+      destruct (read_single_out _ _ _ _ Hr Es) as (cx & (Hcx & Hcx1 & Hx) & Hr').
+      destruct (unpacked_loop fl o rec f t n r') as [[m rs]|] eqn:El; [|discriminate].
+      destruct (IH _ _ _ _ _ Hr' El) as (c' & (Hc' & Hm) & Hrs).
+      intros HH; inversion HH; subst. exists (ct + cx + c')%nat. split; [|assumption].
+      cbn [length] in *. rewrite app_length. pose proof (Kc ct Hct1). split; [lia | nia].
+    Qed.
+
+    Lemma read_entry_out kk t bs x r : bytes_ok bs -> read_entry fl o rec kk t bs = Some (x, r) ->
+      exists c, (length bs = c + length r /\ 1 <= c /\ length x + 2 <= K * c)%nat /\ bytes_ok r.
+    Proof.
+      intros Hb. unfold read_entry.
+      destruct (rd_len bs) as [[l r0]|] eqn:E0; [|discriminate].
+      destruct (consumed_of _ _ (rd_len_shrinks _ _ _ E0)) as (c0 & Hc0 & Hc01).
+      assert (Hr0 : bytes_ok r0) by (destruct (rd_len_suffix _ _ _ E0) as [m ->]; apply bytes_ok_skipn'; assumption).
+      destruct (rd_tag r0) as [[[n1 w1] r1]|] eqn:E1; [|discriminate].
+      destruct (consumed_of _ _ (rd_tag_shrinks _ _ _ _ E1)) as (c1 & Hc1 & Hc11).
+      assert (Hr1 : bytes_ok r1) by (destruct (rd_tag_suffix _ _ _ _ E1) as [m ->]; apply bytes_ok_skipn'; assumption).
+      destruct (read_single fl o rec (TScalar kk) r1) as [[k r2]|] eqn:E2; [|discriminate].
+      destruct (read_single_out _ _ _ _ Hr1 E2) as (c2 & (Hc2 & Hc21 & Hk) & Hr2).
+      cbv zeta.
+      destruct (rd_tag r2) as [[[n3 w3] r3]|] eqn:E3; [|discriminate].
+      destruct (consumed_of _ _ (rd_tag_shrinks _ _ _ _ E3)) as (c3 & Hc3 & Hc31).
+      assert (Hr3 : bytes_ok r3) by (destruct (rd_tag_suffix _ _ _ _ E3) as [m ->]; apply bytes_ok_skipn'; assumption).
+      destruct (read_single fl o rec t r3) as [[v r4]|] eqn:E4; [|discriminate].
+      destruct (read_single_out _ _ _ _ Hr3 E4) as (c4 & (Hc4 & Hc41 & Hv) & Hr4).
+      intros HH; inversion HH; subst. exists (c0 + c1 + c2 + c3 + c4)%nat. split; [|assumption].
+      pose proof (Kc c0 Hc01).
+      assert (Hkey : forall q : bool, (length (if q then 34%Z :: k ++ [34%Z] else k) <= length k + 2)%nat).
+      { intros [|]; cbn [length]; rewrite ?app_length; cbn [length]; lia. }
+      pose proof (Hkey (negb (kk =? K_STRING) && negb ((kk =? K_INT64) && o_int64_string o))) as Hkey'.
+      rewrite app_length. cbn [length]. repeat split; try lia; try nia.
+    Qed.
+
+    Lemma map_loop_out : forall f kk t n bs more rest, bytes_ok bs ->
+      map_loop fl o rec f kk t n bs = Some (more, rest) ->
+      exists c, (length bs = c + length rest /\ length more <= K * c)%nat /\ bytes_ok rest.
+    Proof.
+      induction f as [|f IH]; intros kk t n bs more rest Hb; destruct bs as [|c0 bs]; cbn [map_loop];
+        try discriminate; try (intros HH; inversion HH; subst; exists 0%nat; cbn [length]; split; [lia | constructor]).
+      destruct (rd_tag (c0 :: bs)) as [[[num wt] r]|] eqn:Et; [|discriminate].
+      destruct (consumed_of _ _ (rd_tag_shrinks _ _ _ _ Et)) as (ct & Hct & Hct1).
+      assert (Hr : bytes_ok r) by (destruct (rd_tag_suffix _ _ _ _ Et) as [m ->]; apply bytes_ok_skipn'; assumption).
+      destruct (negb (num =? n)). { intros HH; inversion HH; subst. exists 0%nat. cbn [length]. split; [lia | assumption]. }
+      destruct (read_entry fl o rec kk t r) as [[x r']|] eqn:Es; [|discriminate].
+      destruct (read_entry_out _ _ _ _ _ Hr Es) as (cx & (Hcx & Hcx1 & Hx) & Hr').
+      destruct (map_loop fl o rec f kk t n r') as [[m rs]|] eqn:El; [|discriminate].
+      destruct (IH _ _ _ _ _ _ Hr' El) as (c' & (Hc' & Hm) & Hrs).
+      intros HH; inversion HH; subst. exists (ct + cx + c')%nat. split; [|assumption].
+      cbn [length] in *. rewrite app_length. pose proof (Kc ct Hct1). split; [lia | nia].
+    Qed.
+
+    (* one field value (of any shape): at least one byte, text paid by the bytes consumed *)
+    Lemma walk_field_out fd wt bs x r : bytes_ok bs -> walk_field fl o rec fd wt bs = Some (x, r) ->
+      exists c, (length bs = c + length r /\ 1 <= c /\ length x <= K * c)%nat /\ bytes_ok r.
+    Proof.
+      intros Hb. unfold walk_field. destruct (fd_label fd) as [|q|kk].
+      - intros H. destruct (read_single_out _ _ _ _ Hb H) as (c & (H1 & H2 & H3) & H4). exists c. split; [lia | assumption].
+      - unfold walk_list. destruct ((wt =? 2) && type_numeric (fd_type fd)).
+        + destruct (rd_len bs) as [[l r0]|] eqn:E0; [|discriminate].
+          destruct (consumed_of _ _ (rd_len_shrinks _ _ _ E0)) as (c0 & Hc0 & Hc01).
+          assert (Hr0 : bytes_ok r0) by (destruct (rd_len_suffix _ _ _ E0) as [m ->]; apply bytes_ok_skipn'; assumption).
+          destruct (ProtoMsg.take l r0) as [[payload rest]|] eqn:E1; [|discriminate].
+          pose proof (ptake_len _ _ _ _ E1) as (Hl0 & Hl1 & Hl2).
+          assert (Hp : bytes_ok payload /\ bytes_ok rest).
+          { unfold ProtoMsg.take in E1. destruct ((0 <=? l) && (l <=? plen r0)); [|discriminate]. inversion E1; subst.
+            split; [apply bytes_ok_firstn' | apply bytes_ok_skipn']; assumption. }
+          destruct (packed_loop fl o rec (S (length payload)) (fd_type fd) payload) as [y|] eqn:Ep; [|discriminate].
+          apply packed_loop_out in Ep; [|tauto].
+          intros HH; inversion HH; subst. exists (c0 + length payload)%nat. split; [|tauto].
+          cbn [length]. rewrite app_length. cbn [length]. pose proof (Kc c0 Hc01). repeat split; try lia; try nia.
+        + destruct (read_single fl o rec (fd_type fd) bs) as [[y r0]|] eqn:E0; [|discriminate].
+          destruct (read_single_out _ _ _ _ Hb E0) as (c0 & (Hc0 & Hc01 & Hy) & Hr0).
+          destruct (unpacked_loop fl o rec (S (length r0)) (fd_type fd) (fd_num fd) r0) as [[m rs]|] eqn:E1; [|discriminate].
+          destruct (unpacked_loop_out _ _ _ _ _ _ Hr0 E1) as (c' & (Hc' & Hm) & Hrs).
+          intros HH; inversion HH; subst. exists (c0 + c')%nat. split; [|assumption].
+          cbn [length]. rewrite !app_length. cbn [length]. repeat split; try lia; try nia.
+      - unfold walk_map.
+        destruct (read_entry fl o rec kk (fd_type fd) bs) as [[y r0]|] eqn:E0; [|discriminate].
+        destruct (read_entry_out _ _ _ _ _ Hb E0) as (c0 & (Hc0 & Hc01 & Hy) & Hr0).
+        destruct (map_loop fl o rec (S (length r0)) kk (fd_type fd) (fd_num fd) r0) as [[m rs]|] eqn:E1; [|discriminate].
+        destruct (map_loop_out _ _ _ _ _ _ _ Hr0 E1) as (c' & (Hc' & Hm) & Hrs).
+        intros HH; inversion HH; subst. exists (c0 + c')%nat. split; [|assumption].
+        cbn [length]. rewrite !app_length. cbn [length]. repeat split; try lia; try nia.
+    Qed.
+
+    (* the message loop: every member (comma, key, colon, value) is paid by its tag and its value bytes *)
+    Lemma walk_fields_out md : In md Sc -> forall f comma bs txt, bytes_ok bs ->
+      walk_fields fl o rec f md comma bs = Some txt -> (length txt <= K * length bs)%nat.
+    Proof.
+      intros Hmd. induction f as [|f IH]; intros comma bs txt Hb; destruct bs as [|c0 bs]; cbn [walk_fields];
+        try discriminate; try (intros HH; inversion HH; subst; cbn [length]; lia).
+      destruct (rd_tag (c0 :: bs)) as [[[num wt] r]|] eqn:Et; [|discriminate].
+      destruct (consumed_of _ _ (rd_tag_shrinks _ _ _ _ Et)) as (ct & Hct & Hct1).
+      assert (Hr : bytes_ok r) by (destruct (rd_tag_suffix _ _ _ _ Et) as [m ->]; apply bytes_ok_skipn'; assumption).
+      pose proof (Kc ct Hct1) as HKt.
+      destruct (find_field md num) as [fd|] eqn:Ef.
+      - apply find_some in Ef. destruct Ef as [Hin _]. pose proof (HKEYS md fd Hmd Hin) as Hkey.
+        destruct (walk_field fl o rec fd wt r) as [[x r']|] eqn:Ew; [|discriminate].
+        destruct (walk_field_out _ _ _ _ _ Hr Ew) as (cx & (Hcx & Hcx1 & Hx) & Hr').
+        destruct (walk_fields fl o rec f md true r') as [more|] eqn:El; [|discriminate].
+        apply IH in El; [|assumption]. intros HH.
+        assert (Htxt : (if comma then [44] else []) ++ quote_ref (fd_json fd) ++ 58 :: x ++ more = txt) by congruence.
+        clear HH. subst txt. set (q := quote_ref (fd_json fd)) in *. clearbody q.
+        rewrite !app_length. cbn [length] in *. rewrite !app_length.
+        assert ((length (if comma then [44%Z] else []) <= 1)%nat) by (destruct comma; cbn; lia).
+        nia.
+      - destruct (o_disallow_unknown o); [discriminate|].
+        destruct (skip_val wt r) as [r'|] eqn:Es; [|discriminate].
+        pose proof (skip_val_le _ _ _ Es) as Hle.
+        assert (Hr' : bytes_ok r') by (destruct (skip_val_suffix _ _ _ Es) as [m ->]; apply bytes_ok_skipn'; assumption).
+        intros H. apply IH in H; [|assumption]. pose proof (Kmono (length r') (length (c0 :: bs)) ltac:(lia)). lia.
+    Qed.
+
+    Lemma walk_body_out name body t : bytes_ok body ->
+      walk_body fl o Sc rec name body = Some t -> (length t <= K * length body + 2)%nat.
+    Proof.
+      intros Hb. unfold walk_body. destruct (find_msg Sc name) as [md|] eqn:Em; [|discriminate].
+      apply find_some in Em. destruct Em as [Hin _].
+      destruct (walk_fields fl o rec (S (length body)) md false body) as [x|] eqn:E; [|discriminate].
+      apply (walk_fields_out md Hin) in E; [|assumption].
+      intros HH; inversion HH; subst. cbn [length]. rewrite app_length. cbn [length]. lia.
+    Qed.
+  End Level.
+
+  Theorem walk_msg_out : forall fuel name body t, bytes_ok body ->
+    walk_msg fl o Sc fuel name body = Some t -> (length t <= K * length body + 2)%nat.
+  Proof.
+    induction fuel as [|f IH]; intros name body t Hb; cbn [walk_msg]; [discriminate|].
+    apply walk_body_out; [|assumption]. intros nm b tx Hbb. apply IH. assumption.
+  Qed.
+End P2JOutput.
+
+(* the JSON text conv/p2j emits for ANY byte string it accepts is at most (72 + F + KEYS) * |bs| + 2 characters,
+   F = longest float lexeme of the printer, KEYS = longest quoted member key of the schema *)
+Theorem p2j_output_linear fl F fuel o Sc name bs txt :
+  (forall b, (length (fl b) <= F)%nat) -> bytes_ok bs ->
+  p2j_walk_gen fl fuel o Sc name bs = Some txt ->
+  (length txt <= (72 + F + keys_max Sc) * length bs + 2)%nat.
+Proof.
+  intros HF Hb H. unfold p2j_walk_gen in H.
+  apply (walk_msg_out fl o F HF Sc (keys_max Sc) (keys_max_ge Sc) (72 + F + keys_max Sc)%nat
+           ltac:(lia) ltac:(lia) ltac:(lia) fuel name bs txt Hb H).
+Qed.
+
+(* non-vacuity: {"a":150,"b":["hi","\n"]} — 25 characters from 10 bytes *)
+Example p2j_output_example :
+  let S1 : schema := [mk_mdesc [77] [mk_fdesc 1 [97] [97] LSingular (TScalar 5);
+                                      mk_fdesc 2 [98] [98] (LRepeated true) (TScalar 9)]] in
+  p2j_walk 3 (mk_p2j_opts false false) S1 [77] [8; 150; 1; 18; 2; 104; 105; 18; 1; 10] =
+    Some [123; 34; 97; 34; 58; 49; 53; 48; 44; 34; 98; 34; 58; 91; 34; 104; 105; 34; 44; 34; 92; 110; 34; 93; 125] /\
+  keys_max S1 = 3%nat.
+Proof. vm_compute. split; reflexivity. Qed.
